@@ -175,12 +175,12 @@ func c16Desc(h map[string]c16Health) string {
 
 type c16Spec struct {
 	N       int    `json:"n_ha"`
-	Event   string `json:"event"` // source_dies source_lags source_returns_behind all_ha_replicas_dead switch_request reconfigure
+	Event   string `json:"event"` // source_dies source_lags source_returns_behind all_ha_replicas_dead switch_request reconfigure convert_at_outage
 	Chain   bool   `json:"two_level_chain"`
 	CascGap string `json:"cascade_vs_new_source"` // behind equal ahead
 }
 
-var c16Events = []string{"source_dies", "source_lags", "source_returns_behind", "all_ha_replicas_dead", "switch_request", "reconfigure"}
+var c16Events = []string{"source_dies", "source_lags", "source_returns_behind", "all_ha_replicas_dead", "switch_request", "reconfigure", "convert_at_outage"}
 
 func c16Sim(u *Unit) {
 	r := rand.New(rand.NewSource(u.Seed))
@@ -201,15 +201,35 @@ func c16Sim(u *Unit) {
 		s := sc.S
 		var mu sync.Mutex
 		moves := 0
-		isCasc := func(h string) bool { _, ok := casc[h]; return ok }
+		convertedLate := ""
+		if sp.Event == "convert_at_outage" {
+			convertedLate = hosts[len(hosts)-1]
+		}
+		var cmu sync.Mutex // casc grows when the scenario converts an HA replica
+		isCasc := func(h string) bool { cmu.Lock(); defer cmu.Unlock(); _, ok := casc[h]; return ok }
+		cascHosts := func() []string {
+			cmu.Lock()
+			defer cmu.Unlock()
+			var out []string
+			for h := range casc {
+				out = append(out, h)
+			}
+			return out
+		}
 		s.OnZK(func(r fakezk.Rec) {
 			p := strings.TrimPrefix(r.Path, NS+"/")
 			if p == "active_nodes" && (r.Op == "set" || r.Op == "create") {
-				for h := range casc {
+				for _, h := range cascHosts() {
+					if h == convertedLate {
+						continue // the list was frozen by the outage before the conversion; it is judged at the filing instead
+					}
 					if strings.Contains(r.Data, `"`+h+`"`) {
 						sc.Violate("C16", "cascade-host-in-active-list", fmt.Sprintf("%s published %s which contains the cascade replica %s", r.Client, r.Data, h))
 					}
 				}
+			}
+			if p == "switch" && r.Op == "create" && isDaemon(s, r.Client) && sp.Event == "convert_at_outage" {
+				sc.Violate("C16", "failover-filed-counting-cascade-replicas", fmt.Sprintf("%s filed %s although the quorum of the published list can only be reached by counting %s, which has been a cascade replica since the outage began", r.Client, r.Data, convertedLate))
 			}
 			if p == "switch" && r.Op == "create" && isDaemon(s, r.Client) && sp.Event == "all_ha_replicas_dead" {
 				sc.Violate("C16", "failover-filed-counting-cascade-replicas", fmt.Sprintf("%s filed %s although every HA replica is dead and only cascade replicas are alive", r.Client, r.Data))
@@ -305,6 +325,18 @@ func c16Sim(u *Unit) {
 			w.Crash(hosts[0])
 			time.Sleep(50 * time.Second)
 			sc.Cover("only-cascade-alive")
+		case "convert_at_outage":
+			// the master dies; at the same moment the operator turns an HA replica into a cascade replica. The published
+			// list is frozen by the outage and still names it: it must not be counted towards the failover quorum
+			x := convertedLate
+			w.Crash(hosts[0])
+			s.ZK.Remove("operator", NS+"/ha_nodes/"+x)
+			s.ZK.Put("operator", NS+"/cascade_nodes/"+x, fmt.Sprintf(`{"stream_from":%q}`, hosts[1]))
+			cmu.Lock()
+			casc[x] = hosts[1]
+			cmu.Unlock()
+			time.Sleep(60 * time.Second)
+			sc.Cover("converted-during-outage")
 		case "switch_request":
 			fileSwitch(sc, "", "cas-db9", "manual", "switchover", "operator")
 			time.Sleep(20 * time.Second)
